@@ -33,14 +33,16 @@ def ackScan (img : List Nat) (our : Option Mac) : Bool × Nat :=
     if unbe (slice img (X.sizeofDemux + X.offDiscCount) 2) = 0 then (true, 0)
     else stationScan img (X.sizeofDemux + X.offDiscList) X.strideStation m (stationCount img) 0
 
+/-- session_table_find as derive_session_event uses it: the first valid slot with this (mapper, generation) -/
+def existingOf (tbl : Option Table) (mac : Mac) (gen : Nat) : Option Entry :=
+  match tbl with
+  | some t => t.entries.find? (fun e => e.matches mac gen)
+  | none => none
+
 /-- the classification of a Discover that holds its fixed header -/
 def discoverEvent (img : List Nat) (tbl : Option Table) (our : Option Mac) : Int :=
-  let gen := fDiscGen img
   let xid := fSeq img
-  let existing : Option Entry := match tbl with
-    | some t => (t.find (fRealSrc img) gen).bind (fun i => t.entries[i]?)
-    | none => none
-  let changed := match existing with | some e => e.seq != xid | none => false
+  let changed := match existingOf tbl (fRealSrc img) (fDiscGen img) with | some e => e.seq != xid | none => false
   if (ackScan img our).1 then (if changed then X.sessAckingChgd else X.sessAcking)
   else (if changed then X.sessNoackChgd else X.sessNoack)
 
